@@ -17,12 +17,20 @@ import (
 
 func UpdatePublicKeyAndAdjustBigXj(keyDerivationDelta *big.Int, keys []keygen.LocalPartySaveData, extendedChildPk *ecdsa.PublicKey, ec elliptic.Curve) error {
 	var err error
-	gDelta := crypto.ScalarBaseMult(ec, keyDerivationDelta)
+	// an offset of 0 modulo the group order (the empty derivation path, or offsets that cancel) leaves the
+	// public shares as they are; delta*G is then the point at infinity, which ScalarBaseMult cannot represent
+	var gDelta *crypto.ECPoint
+	if new(big.Int).Mod(keyDerivationDelta, ec.Params().N).Sign() != 0 {
+		gDelta = crypto.ScalarBaseMult(ec, keyDerivationDelta)
+	}
 	for k := range keys {
 		keys[k].ECDSAPub, err = crypto.NewECPoint(ec, extendedChildPk.X, extendedChildPk.Y)
 		if err != nil {
 			common.Logger.Errorf("error creating new extended child public key")
 			return err
+		}
+		if gDelta == nil {
+			continue
 		}
 		// Suppose X_j has shamir shares X_j0,     X_j1,     ..., X_jn
 		// So X_j + D has shamir shares  X_j0 + D, X_j1 + D, ..., X_jn + D
